@@ -11,7 +11,7 @@ PROPERTY = "C09"
 LEVEL = "exploration"
 FAMILY = "C09"
 RULE = (
-    "cases = the same generated histories as C08 (requests from any number of writers/readers over 6 keys, capacity 1-96, any "
+    "cases = the same generated histories as C08 (requests from any number of writers/readers over 6 keys, capacity 1-96 bytes or page-sized, any "
     "completion order of page-out/page-in jobs including failures, virtual clock jumps beyond the 15-minute staleness window, "
     "persistent requests). Oracle: every successful get exposes exactly the bytes written under the key (contents differ per key "
     "and generation) after any number of page cycles; get before the writer closed answers wait; a dataset with a reader younger than "
